@@ -92,6 +92,23 @@ fn run_case(acc: &mut Acc, b: &mut Base, v: usize, amt_idx: usize, sym: Option<&
                     acc.violation("C06", "L8/exact-repayment-rejected", vdetail(&b.wd, v, json!({"err": out.err, "amount": amount.to_string()})));
                 }
             }
+            // generalisation to nested / sibling loans: when every loan is repaid with exactly the amount quoted at the
+            // time of its repayment the vault gains exactly the fees due (the quote is tight), and an outermost
+            // repayment one unit below its quote is never enough
+            if s.exact_chain() && s.depth() >= 2 && out.ok {
+                acc.count("check.L9.nested-exact-quotes-are-tight");
+                for (i, ex) in &out.excess {
+                    if *ex != 0 {
+                        acc.violation("C06", "L9/quote-exceeds-what-suffices/repayments-exactly-as-quoted-overpaid-the-vault", vdetail(&b.wd, *i, json!({"excess": ex.to_string(), "amount": amount.to_string(), "script": s.label()})));
+                    }
+                }
+            }
+            if s.minus1_outer_chain() && s.depth() >= 2 {
+                acc.count("check.L9.nested-one-less-never-suffices");
+                if out.ok {
+                    acc.violation("C06", "L9/underpayment-by-one-accepted/after-nested-loans", vdetail(&b.wd, v, json!({"amount": amount.to_string(), "script": s.label()})));
+                }
+            }
             if s.only_minus1() {
                 acc.count("check.L9.one-less-never-suffices");
                 if out.ok {
@@ -110,6 +127,20 @@ fn run_case(acc: &mut Acc, b: &mut Base, v: usize, amt_idx: usize, sym: Option<&
             acc.case(&[2, v as u64, amt_idx as u64, fee_idx as u64, hash_str(&label), out.ok as u64]);
             let user_post = b.wd.vaults[v].asset.balance(&b.wd.app, &usr);
             match k {
+                RouterPay::OtherContractLoanInside if amount + 2 <= bal && amount >= 1 => {
+                    acc.count("check.L8.router-exact-suffices.after-another-contracts-loan");
+                    if !out.ok {
+                        acc.violation("C06", "L8/router/proceeds-equal-to-quote-rejected/after-another-contracts-loan", vdetail(&b.wd, v, json!({"err": out.err, "amount": amount.to_string()})));
+                    } else if user_post != user_pre {
+                        acc.violation("C06", "L7/router/initiator-delta!=inflow-minus-payback", vdetail(&b.wd, v, json!({"delta": (user_post as i128 - user_pre as i128).to_string(), "want": "0"})));
+                    } else {
+                        for (i, ex) in &out.excess {
+                            if *ex != 0 {
+                                acc.violation("C06", "L9/quote-exceeds-what-suffices/repayments-exactly-as-quoted-overpaid-the-vault", vdetail(&b.wd, *i, json!({"excess": ex.to_string(), "amount": amount.to_string(), "via": "router"})));
+                            }
+                        }
+                    }
+                }
                 RouterPay::ExactFees if amount <= bal => {
                     acc.count("check.L8.router-exact-suffices");
                     if !out.ok {
@@ -254,12 +285,12 @@ pub fn run(ctx: &Ctx) -> (CheckMeta, Acc) {
     });
     let meta = CheckMeta {
         level: "fault_enumeration",
-        rule: format!("borrower alphabet: pre-action in {{none, deposit, withdraw, collect, update-config attempt, fail, panic}} x {{propagating, swallowed}} (+ repay-first variants) x repay mode in {{exact, minus1, plus(k), nothing, principal-only}} = {} depth-1 scripts; nested loans (same/other vault, all/half of what is left, propagating/swallowed) carry a script of the previous depth: {} depth-2 scripts. Enumerated exhaustively: depth-1 scripts and the 8 router payload kinds over the full product {{native, cw20}} x 6 loan amounts {{1, 999, 1000, bal/2, bal, bal+1}} x 5 fee triples x {{fresh vault, vault holding uncollected protocol fees of an earlier loan}}; depth-2 scripts over {} ; depth-3 scripts are a seeded sample; 21 hand-picked two-step scripts (sibling loans, an action after a completed nested loan, depth 3, the borrower as owner of the vault switching loans off before depositing) run on every fee triple x {{fresh, pending fees}} x {{factory-owned, borrower-owned vault}} x both vaults x amounts {{bal/2, bal}}. Every top-level transaction is judged by L0-L9 (+V1, C07 ledger, U1). evaluations = transactions; distinct = distinct (kind, vault, amount index, fee set, script label, committed?) tuples.", d1.len(), d2.len(), if thorough { "the full product" } else { "amounts {bal/2, bal} x fee sets {zero, typical-with-burn} x both vaults" }),
+        rule: format!("borrower alphabet: pre-action in {{none, deposit, withdraw, collect, update-config attempt, fail, panic}} x {{propagating, swallowed}} (+ repay-first variants) x repay mode in {{exact, minus1, plus(k), nothing, principal-only}} = {} depth-1 scripts; nested loans (same/other vault, all/half of what is left, propagating/swallowed) carry a script of the previous depth: {} depth-2 scripts. Enumerated exhaustively: depth-1 scripts and the 9 router payload kinds over the full product {{native, cw20}} x 6 loan amounts {{1, 999, 1000, bal/2, bal, bal+1}} x 5 fee triples x {{fresh vault, vault holding uncollected protocol fees of an earlier loan}}; depth-2 scripts over {} ; depth-3 scripts are a seeded sample; 21 hand-picked two-step scripts (sibling loans, an action after a completed nested loan, depth 3, the borrower as owner of the vault switching loans off before depositing) run on every fee triple x {{fresh, pending fees}} x {{factory-owned, borrower-owned vault}} x both vaults x amounts {{bal/2, bal}}. Every top-level transaction is judged by L0-L9 (+V1, C07 ledger, U1). evaluations = transactions; distinct = distinct (kind, vault, amount index, fee set, script label, committed?) tuples.", d1.len(), d2.len(), if thorough { "the full product" } else { "amounts {bal/2, bal} x fee sets {zero, typical-with-burn} x both vaults" }),
         assumptions: vec![
             "committed facts of a transaction are read from its event list (cw-multi-test drops the events of reverted sub-messages) and from state diffs".into(),
             "the borrower's swallowed sub-calls are wrapped in a self-call with reply_on: Error".into(),
         ],
-        obligations: vec!["loan.ok".into(), "loan.reverted".into(), "loan.ok.with-nested-loans".into(), "check.L1.vault-gain".into(), "check.L3.burn-destroyed".into(), "check.L5.counter-zero".into(), "check.L6.no-mint-during-loan".into(), "check.L7.router-keeps-nothing".into(), "check.L8.exact-suffices".into(), "check.L9.one-less-never-suffices".into(), "check.L8.router-exact-suffices".into(), "check.L9.router-one-less-never-suffices".into(), "depth3.sampled".into(), "check.U1".into(), "base.with-pending-protocol-fees".into(), "base.borrower-owns-the-vault".into(), "special-script.run".into()],
+        obligations: vec!["loan.ok".into(), "loan.reverted".into(), "loan.ok.with-nested-loans".into(), "check.L1.vault-gain".into(), "check.L3.burn-destroyed".into(), "check.L5.counter-zero".into(), "check.L6.no-mint-during-loan".into(), "check.L7.router-keeps-nothing".into(), "check.L8.exact-suffices".into(), "check.L9.one-less-never-suffices".into(), "check.L8.router-exact-suffices".into(), "check.L9.router-one-less-never-suffices".into(), "check.L9.nested-exact-quotes-are-tight".into(), "check.L9.nested-one-less-never-suffices".into(), "check.L8.router-exact-suffices.after-another-contracts-loan".into(), "depth3.sampled".into(), "check.U1".into(), "base.with-pending-protocol-fees".into(), "base.borrower-owns-the-vault".into(), "special-script.run".into()],
     };
     (meta, total)
 }
